@@ -7,7 +7,8 @@ LEVEL = "proof"
 GEN_UNITS = ["GenUtils"]
 COQ_TARGETS = ["Props/C17.vo", "Model/Harness.vo"]
 THEOREM_FILES = ["Props/C17.v"]
-COQ_IMPORTS = "From Coq Require Import List ZArith Bool.\nFrom PV Require Import Np.NpZ Gen.GenUtils Model.Harness.\n"
+COQ_IMPORTS = ("From Coq Require Import List ZArith Bool.\n"
+               "From PV Require Import Np.NpZ Gen.GenUtils Model.Harness Proofs.KhatriRao.\n")
 RULE = ("exhaustive over small shapes/index sets + seeded random stream; a case is non-trivial unless the shape is "
         "1-cell or the request is empty; distinct = distinct (op, arguments)")
 EXPLANATION = ("Theorems are stated over Gen/GenUtils.v, regenerated from pyttb_utils.py on this run; the correspondence "
@@ -96,6 +97,29 @@ def gen_cases(rng, tier):
             b = [list(x) for x in dict.fromkeys(map(tuple, b))]
         for op in ("ismember", "intersect", "setdiff"):
             cases.append(Case(op, {"a": a, "b": b, "k": k}, bool(a) and bool(b)))
+    # --- Khatri-Rao: tuples of 1..4 matrices with a common column count, both orders; column mismatch (malformed)
+    for _ in range(600 if big else 150):
+        R = rng.randint(1, 3)
+        k = rng.randint(1, 4)
+        mats = [[[rng.randint(-3, 4) for _ in range(R)] for _ in range(rng.randint(1, 3))] for _ in range(k)]
+        if rng.random() < 0.15 and k > 1:
+            j = rng.randrange(k)
+            mats[j] = [row + [1] for row in mats[j]]       # one matrix with a different column count
+        cases.append(Case("khatrirao", {"mats": mats, "reverse": rng.random() < 0.5}, k > 1))
+    # --- Np primitive validation (the translator's whitelist: numpy call -> Np definition)
+    for _ in range(600 if big else 150):
+        k = rng.randint(1, 3)
+        m = [[rng.randint(0, 2) for _ in range(k)] for _ in range(rng.randint(1, 6))]
+        cases.append(Case("prim_unique_rows", {"m": m, "k": k}, len(m) > 1))
+        v = rng.sample(range(-5, 12), rng.randint(0, 6))
+        w = [rng.randint(-2, 6) for _ in range(rng.randint(0, 6))]
+        cases.append(Case("prim_argsort", {"v": v}, len(v) > 1))
+        cases.append(Case("prim_setdiff1d", {"a": w, "b": v}, bool(w) and bool(v)))
+        cases.append(Case("prim_isin", {"a": w, "b": v}, bool(w) and bool(v)))
+        n = rng.randint(1, 6)
+        idx = [rng.randrange(n) for _ in range(rng.randint(0, 6))]
+        vals = [rng.randint(-9, 9) for _ in idx]
+        cases.append(Case("prim_scatter", {"n": n, "idx": idx, "vals": vals}, len(idx) > 1))
     return cases
 
 
@@ -129,6 +153,24 @@ def run_impl(c):
         if c.op == "setdiff":
             r = U.tt_setdiff_rows(_mat(np, a["a"], a["k"]), _mat(np, a["b"], a["k"]))
             return {"ok": [int(x) for x in np.asarray(r).ravel()]}
+        if c.op == "khatrirao":
+            from pyttb.khatrirao import khatrirao
+            r = khatrirao(*[np.array(m, dtype=float) for m in a["mats"]], reverse=a["reverse"])
+            return {"ok": [[int(x) for x in row] for row in r]}
+        if c.op == "prim_unique_rows":
+            u, i = np.unique(_mat(np, a["m"], a["k"]), axis=0, return_index=True)
+            return {"ok": [[[int(x) for x in r] for r in u], [int(x) for x in i]]}
+        if c.op == "prim_argsort":
+            return {"ok": [int(x) for x in np.argsort(np.array(a["v"], dtype=int))]}
+        if c.op == "prim_setdiff1d":
+            return {"ok": [int(x) for x in np.setdiff1d(np.array(a["a"], dtype=int), np.array(a["b"], dtype=int))]}
+        if c.op == "prim_isin":
+            return {"ok": [bool(x) for x in np.isin(np.array(a["a"], dtype=int), np.array(a["b"], dtype=int))]}
+        if c.op == "prim_scatter":
+            r = np.ones(a["n"]) * -1
+            if a["idx"]:
+                r[np.array(a["idx"], dtype=int)] = np.array(a["vals"])
+            return {"ok": [int(x) for x in r]}
     except Exception as ex:      # any exception raised before a value is returned = rejected
         return {"exc": type(ex).__name__}
     raise ValueError(c.op)
@@ -160,6 +202,22 @@ def coq_check(c, o):
     if c.op in ("intersect", "setdiff"):
         exp = "Err" if "exc" in o else f"(Ok {gzlist(o['ok'])})"
         return f"res_eqb vec_eqb (tt_{c.op}_rows {gzmat(a['a'])} {gzmat(a['b'])}) {exp}"
+    if c.op == "khatrirao":
+        ms = "[" + "; ".join(gzmat(m) for m in a["mats"]) + "]"
+        exp = "None" if "exc" in o else f"(Some {gzmat(o['ok'])})"
+        return f"opt_eqb mat_eqb (khatrirao Z Z.mul {'true' if a['reverse'] else 'false'} {ms}) {exp}"
+    if c.op.startswith("prim_") and "exc" in o:
+        return "false"
+    if c.op == "prim_unique_rows":
+        return f"pair_eqb mat_eqb vec_eqb (np_unique_rows {gzmat(a['m'])}) ({gzmat(o['ok'][0])}, {gzlist(o['ok'][1])})"
+    if c.op == "prim_argsort":
+        return f"vec_eqb (np_argsort {gzlist(a['v'])}) {gzlist(o['ok'])}"
+    if c.op == "prim_setdiff1d":
+        return f"vec_eqb (np_setdiff1d {gzlist(a['a'])} {gzlist(a['b'])}) {gzlist(o['ok'])}"
+    if c.op == "prim_isin":
+        return f"bvec_eqb (np_isin {gzlist(a['a'])} {gzlist(a['b'])}) {gblist(o['ok'])}"
+    if c.op == "prim_scatter":
+        return f"vec_eqb (np_scatter (np_full {gz(a['n'])} (-1)%Z) {gzlist(a['idx'])} {gzlist(a['vals'])}) {gzlist(o['ok'])}"
     raise ValueError(c.op)
 
 
@@ -257,5 +315,18 @@ def oracle(c, o):
         want = [r for r in A if (r in B) == (c.op == "intersect")]
         if sorted(map(tuple, rows)) != sorted(map(tuple, want)) or len(rows) != len(want):
             return f"rows selected {rows} are not the set-algebra answer {want}"
+        return None
+    if c.op == "khatrirao":
+        mats = a["mats"][::-1] if a["reverse"] else a["mats"]
+        R = len(mats[0][0])
+        if any(len(row) != R for m in mats for row in m):
+            return None if "exc" in o else "matrices with different column counts were answered"
+        if "exc" in o:
+            return f"admissible Khatri-Rao product rejected ({o['exc']})"
+        rows = [[1] * R]
+        for m in mats:         # first argument slowest
+            rows = [[p[r] * q[r] for r in range(R)] for p in rows for q in m]
+        if o["ok"] != rows:
+            return f"result {o['ok']} is not the column-wise Kronecker product {rows}"
         return None
     return None
